@@ -3,11 +3,11 @@ import json
 
 from .. import core
 
-FAMS = ["lr", "lr2", "arith", "arithnest", "mutual", "hidden", "brackets", "seplist"]
+FAMS = ["lr", "lr2", "arith", "arithnest", "mutual", "hidden", "brackets", "brackets2", "seplist"]
 
 
 def cfg(sizes, run_machine):
-    return ('CONSTANTS PinnedSeqReset = FALSE PinnedAnyDrop = FALSE Fams = {%s} Sizes = {%s} RunMachine = %s\n'
+    return ('CONSTANTS PinnedSeqReset = FALSE PinnedAnyDrop = FALSE Fams = {%s} Sizes = {%s} RunMachine = %s Variants = {"good", "bad"}\n'
             'INIT Init\nNEXT Next\nINVARIANTS %s Export\nCHECK_DEADLOCK FALSE\n' % (
                 ", ".join('"%s"' % f for f in FAMS), ", ".join(map(str, sizes)), str(run_machine).upper(),
                 "Accepts" if run_machine else ""))
@@ -16,7 +16,7 @@ def cfg(sizes, run_machine):
 def run(r):
     th = r.tier == "thorough"
     msizes = [2, 4, 8, 16, 32] + ([64] if th else [])
-    rsizes = [8, 16, 32, 64, 128, 256] + ([512] if th else [])
+    rsizes = [8, 16, 32, 64, 128, 256, 512] + ([1024] if th else [])
     # (1) the machine on the small sizes: its call count is the model's prediction
     m = r.tlc("C17MC", cfg_text=cfg(msizes, True), workers=core.NCPU, timeout=1700)
     if not m.ok:
@@ -26,11 +26,24 @@ def run(r):
     if not big.ok:
         raise core.Inconclusive("C17MC (inputs) failed: %r" % big)
     cases = sorted(m.prints + big.prints, key=lambda c: (c["fam"], c["n"]))
-    inp = r.path("c17-cases.ndjson")
-    core.write_ndjson(inp, cases)
+    # one cold process per family and variant: the measured grammar is the first thing the library does in its process
+    from concurrent.futures import ThreadPoolExecutor
+    groups = {}
+    for c in cases:
+        groups.setdefault(c["fam"], []).append(c)
+
+    def measure(item):
+        k, (fam, cs) = item
+        inp, out = r.path("c17-cases-%d.ndjson" % k), r.path("c17-real-%d.ndjson" % k)
+        core.write_ndjson(inp, cs)
+        r.pvh("parse", "c17", **{"in": inp, "out": out}, timeout=3000)
+        return core.read_ndjson(out)
+    r.pvh_bin()
+    with ThreadPoolExecutor(max_workers=min(core.NCPU, 8)) as ex:
+        parts = list(ex.map(measure, enumerate(sorted(groups.items()))))
+    rows = [x for part in parts for x in part]
     out = r.path("c17-real.ndjson")
-    r.pvh("parse", "c17", **{"in": inp, "out": out}, timeout=3000)
-    rows = core.read_ndjson(out)
+    core.write_ndjson(out, rows)
     # binding: real CallCount = machine calls wherever the machine was run (a difference is drift, not a violation)
     bound = 0
     for row in rows:
@@ -45,7 +58,7 @@ def run(r):
         r.traces += len(rows)
     elif o.rejected_line:
         row = rows[min(o.rejected_line, len(rows)) - 1]
-        r.violation({"kind": "c17", "row": row, "table": [x for x in rows if x["fam"] == row["fam"]], "key": "c17-%s-%d" % (row["fam"], row["n"])},
+        r.violation({"kind": "c17", "row": row, "table": [x for x in rows if x["fam"] == row["fam"]], "key": "c17-%s-%d" % (row["fam"].replace("/", "-"), row["n"])},
                     "family %s n=%d: calls %s (runs %s/%s, accepted %s) violates the doubling / determinism predicate" % (
                         row["fam"], row["n"], row["calls1"], row["calls1"], row["calls2"], row["ok"]))
     else:
@@ -59,7 +72,7 @@ def run(r):
     r.extra["machine_equals_real_on"] = bound
     r.samples.append({"family": "arith", "table_n_calls": table.get("arith")})
     r.rule = ("the families of the property (P -> P b | a, P -> P b | P c | a, expr/term/factor on flat and on nested-parenthesis inputs, mutually left-recursive pair, hidden left recursion, nested brackets, separated "
-              "lists); ParsleyMachine is run for n <= %d and its call count must equal the real Context.CallCount() (binding); the real combinators are "
+              "lists); each family on inputs of its language and on inputs outside it (unclosed nest, dangling operator / separator, foreign last byte), one cold process per family; ParsleyMachine is run for n <= %d and its call count must equal the real Context.CallCount() (binding); the real combinators are "
               "measured twice for n in %s and C17Trace checks calls(2n) <= 16 calls(n) for n >= 8, determinism and acceptance" % (max(msizes), rsizes))
     r.assumptions = ["the polynomial bound is the doubling test the property states, not an asymptotic proof", "one input shape per family and size"]
     r.exhaustive = False
@@ -67,7 +80,9 @@ def run(r):
 
 def replay(r, case):
     # re-measure the family of the recorded row
-    m = r.tlc("C17MC", cfg_text=cfg(sorted({x[0] if isinstance(x, list) else x["n"] for x in case["table"]}), False), workers=4, timeout=600, count=False)
+    base = case["row"]["fam"].split("/")[0]
+    sizes = [8, 16, 32, 64, 128, 256, 512]
+    m = r.tlc("C17MC", cfg_text=cfg(sizes, False).replace("Fams = {%s}" % ", ".join('"%s"' % f for f in FAMS), 'Fams = {"%s"}' % base), workers=4, timeout=600, count=False)
     cases = [c for c in m.prints if c["fam"] == case["row"]["fam"]]
     inp = r.path("c17-cases.ndjson")
     core.write_ndjson(inp, sorted(cases, key=lambda c: c["n"]))
